@@ -17,6 +17,30 @@ from conc import run_schedule
 
 use_repo()
 
+# how many builds (`Ovld._compile` run to its end) since the counter was last reset: counted from outside, the
+# library's lines are the only scheduling points
+BUILDS = {"n": 0}
+
+
+def _count_builds():
+    from ovld import core
+
+    if getattr(core.Ovld._compile, "_verif_counting", False):
+        return
+    orig = core.Ovld._compile
+
+    def _compile(self):
+        r = orig(self)
+        BUILDS["n"] += 1
+        return r
+
+    _compile._verif_counting = True
+    _compile.__name__ = "_compile"
+    core.Ovld._compile = _compile
+
+
+_count_builds()
+
 
 def reference(sc, tags, probes):
     ov = sc.build(tags)
@@ -30,15 +54,20 @@ def make(sc, tags, warm, probes):
     return ov
 
 
+LASTRUN = {}
+
+
 def one_run(sc, tags, mode, targs, routes, segments, probes, ref):
     """returns None when everything agrees with the sequential reference, else a description"""
     warm = []
+    BUILDS["n"] = 0
     if mode != "first":
         # built and warmed on an argument none of the threads uses
         warm = [i for i in range(len(probes)) if i not in targs][:1]
     ov = make(sc, tags, warm, probes)
     if mode != "first" and not warm:
         call(ov, probes[targs[0]])
+        BUILDS["n"] = 0
         ov = make(sc, tags, [], probes)
         ov.compile()
     fns = []
@@ -50,6 +79,7 @@ def one_run(sc, tags, mode, targs, routes, segments, probes, ref):
 
         fns.append(f)
     ok, results, lengths, trace = run_schedule(fns, segments)
+    LASTRUN["builds"] = BUILDS["n"]
     if not ok:
         return {"law": "threads deadlocked", "trace": trace}, lengths
     for i, (res, a) in enumerate(zip(results, targs)):
@@ -69,6 +99,16 @@ def explore(seed, n, opts):
     rng = random.Random(seed)
     out = {"ops": 0, "corr": [], "hist": {}, "samples": [], "oracles": {}}
     o = out["oracles"].setdefault("C19", {"n": 0, "nontrivial": 0, "viol": [], "known": {}})
+    # C20 (Props/C20Build.lean): the method set does not change during a schedule, so the function is built once — a
+    # second build throws away every combination that has been handled and resolves it again
+    o20 = out["oracles"].setdefault("C20", {"n": 0, "nontrivial": 0, "viol": [], "known": {}})
+
+    def built_once(wit):
+        o20["n"] += 1
+        if wit["mode"] == "first":
+            o20["nontrivial"] += 1
+        if LASTRUN.get("builds", 0) > 1 and len(o20["viol"]) < 5:
+            o20["viol"].append({"law": "a function whose methods did not change was built again: every combination handled so far is resolved again", "builds": LASTRUN["builds"], **wit})
 
     def bump(k, v=1):
         out["hist"][k] = out["hist"].get(k, 0) + v
@@ -85,7 +125,7 @@ def explore(seed, n, opts):
         tags = list(range(k))
         probes = sc.probes()
         ref = reference(sc, tags, probes)
-        mode = rng.choice(["first", "first", "miss-equal", "miss-diff", "chain"])
+        mode = rng.choice(opts.get("modes") or ["first", "first", "miss-equal", "miss-diff", "chain"])
         nthreads = 3 if rng.random() < 0.15 else 2
         if mode == "miss-equal":
             a = rng.randrange(len(probes))
@@ -142,6 +182,7 @@ def explore(seed, n, opts):
                 o["n"] += 1
                 o["nontrivial"] += 1
                 v, _ = one_run(sc, tags, mode, targs, routes, segments, probes, ref)
+                built_once({"kind": "conc", "sseed": sseed, "mode": mode, "k": k, "targs": targs, "routes": routes, "segments": segments})
                 if v is not None:
                     o["viol"].append({"kind": "conc", "sseed": sseed, "mode": mode, "k": k, "targs": targs, "routes": routes, "segments": segments, **v})
                     break
@@ -161,6 +202,7 @@ def explore(seed, n, opts):
             o["nontrivial"] += 1
             bump("mode:" + mode)
             v, _ = one_run(sc, tags, mode, targs, routes, segments, probes, ref)
+            built_once({"kind": "conc", "sseed": sseed, "mode": mode, "k": k, "targs": targs, "routes": routes, "segments": segments})
             if v is not None:
                 wit = {"kind": "conc", "sseed": sseed, "mode": mode, "k": k, "targs": targs, "routes": routes, "segments": segments, **v}
                 where = (v.get("trace") or [[None, None, None]])[0][2]
@@ -180,6 +222,8 @@ def replay_conc(w):
     probes = sc.probes()
     ref = reference(sc, tags, probes)
     v, _ = one_run(sc, tags, w["mode"], w["targs"], w["routes"], [tuple(x) for x in w["segments"]], probes, ref)
+    if "builds" in w:
+        return LASTRUN.get("builds", 0) > 1
     return v is not None
 
 
